@@ -141,3 +141,17 @@ def _grad_where(prog):
 
 # canaries/engine: torch.where(x > 1, log(x) + 1, x) (bad) / with the log's argument clamped to >= 1 (good)
 canary.register("C16", "engine", _grad_where, "GRAD-WHERE")
+
+
+def _ut_args(prog):
+    from .rules.c20 import py_args_rule
+
+    class Ctx:
+        p = prog
+        ut_args_floor = 1
+
+    return py_args_rule(Ctx()).findings
+
+
+# canaries/engine: a helper that extends the caller's list through an alias (bad) / copies it first (good)
+canary.register("C20", "engine", _ut_args, "UT-ARGS")
